@@ -109,6 +109,23 @@ Theorem C07_stream_full : forall input sch capv,
 Proof. exact stream_full. Qed.
 Print Assumptions C07_stream_full.
 
+(* ---------- corollaries ---------- *)
+Theorem C07_schedule_independent : forall input sch1 sch2 cap1 cap2,
+  wf_bytes input -> no_fail sch1 -> no_fail sch2 -> need input <= cap1 -> need input <= cap2 ->
+  run_stream cap1 sch1 input = run_stream cap2 sch2 input.
+Proof. exact schedule_independent. Qed.
+Print Assumptions C07_schedule_independent.
+
+(* the hypothesis of the main theorem is satisfiable for every input: |input| + 1 bytes suffice *)
+Theorem C07_need_le_length : forall input, need input <= S (length input).
+Proof. exact need_le_length. Qed.
+Print Assumptions C07_need_le_length.
+
+Theorem C07_stream_eq_slice_big : forall input sch capv,
+  wf_bytes input -> no_fail sch -> length input < capv -> run_stream capv sch input = run_slice input.
+Proof. exact stream_eq_slice_big. Qed.
+Print Assumptions C07_stream_eq_slice_big.
+
 (* non-vacuity: an input with an escaped quote inside a quoted scalar, a comment, a parameter
    token and a two-byte operator needs 5 bytes; with one-byte reads and a 5-byte buffer the
    streaming reader gives the slice result, with a 4-byte buffer it reports BufferFull *)
